@@ -227,7 +227,7 @@ impl Prop for C05 {
                 Outcome::Panic(e) => ("panic", e.clone()),
                 _ => return Ok(true),
             };
-            let class = crash::image_class(img).unwrap_or("open-failed");
+            let class = crash::image_class(img, rec.layout.as_ref()).unwrap_or("open-failed");
             let key = format!("{}/{}", class, kind);
             let text = format!("{ctxs}: RaftLog::open {} : {}; image: {}", if kind == "err" { "returned Err" } else { "panicked" }, msg, crash::describe_image(img));
             if ctx.known.is_known(&key) {
